@@ -2,19 +2,23 @@
 Correspondence: (a) bus VM/VA/BUS_TYPE written by build_gen.py (fresh _pd2ppc) vs C04.Model.run_setpoints, including the
 UserWarning of inconsistent setpoints; (b) the q-limit loop: every ppci_to_pfsoln call of the real loop is recorded
 (limited set, QG column) and replayed as the PF oracle of C04.Model.run_qloop (limited order, final QG, number of calls,
-IndexError of enforce_q_lims=2).  Oracle: each law of the property evaluated on the result tables."""
+IndexError of enforce_q_lims=2); (c) the PD/QD backup / restore history of the loop: bus PD/QD at the entry of every PF call of the
+loop and after the loop vs C04.Model.run_demand.  Oracle: each law of the property evaluated on the result tables; frame: bus PD/QD
+after the loop equal the columns before it; a recycled power flow after the q-limit run reproduces the results."""
 import json, math, hashlib
 import numpy as np
 import pandapower as pp
 from fractions import Fraction
 from vf import coqrun as cq, c01_pf as pf
-from pandapower.pypower.idx_bus import VM, VA, BUS_TYPE
-from pandapower.pypower.idx_gen import QG, QMIN, QMAX, GEN_BUS, GEN_STATUS
+from pandapower.pypower.idx_bus import VM, VA, BUS_TYPE, PD, QD
+from pandapower.pypower.idx_gen import QG, PG, QMIN, QMAX, GEN_BUS, GEN_STATUS
 
 RULE = ("C01-style nets (2-8 buses, fused bus sections, second ext_grid on the slack bus) with 1-5 gens (60 % on shared buses, "
         "q limits on 80 %, limits made binding by large reactive loads in ~50 %), slack gens, xwards, ZIP loads, shunts with vn != bus vn and "
         "steps 0-3, scaling in {0,.5,1,1.25}; options enforce_q_lims in {False, True, 2}, voltage_depend_loads, calculate_voltage_angles; "
         "~8 % malformed: different vm_pu setpoints on one bus (far apart -> UserWarning, within np.allclose -> accepted); "
+        "20 % of the nets with an out-of-service bus (its elements included), 15 % with a trafo3w (trafo3w_losses in hv/mv/lv/star: the iron losses "
+        "are a shunt at the chosen / auxiliary bus); after every converged q-limit run one recycled power flow (random recycle dict); "
         "non-trivial = enforce_q_lims with at least one limited gen, or >= 2 voltage sources on one bus")
 ASSUMPTIONS = [
     "Newton solver + pfsoln are the PF oracle of the loop model: its QG column per call is recorded from the real run and replayed exactly",
@@ -24,10 +28,12 @@ ASSUMPTIONS = [
 TRUSTED = ["observation of the loop by wrapping pandapower.pf.run_newton_raphson_pf.ppci_to_pfsoln in the harness process (no source change)"]
 
 TOLQ = 1e-6
+DEM = {"t": [], "p": [], "lt": [], "lp": []}
 
 
 def _gen_case(rng):
-    net = pf.gen_net(rng, rich=rng.choice([0.5, 0.8]), n_gen=0, two_eg_p=0.25, allow_xward=rng.random() < 0.3)
+    net = pf.gen_net(rng, rich=rng.choice([0.5, 0.8]), n_gen=0, two_eg_p=0.25, allow_xward=rng.random() < 0.3,
+                     t3w_p=0.3 if rng.random() < 0.5 else 0.0)
     buses = [int(b) for b in net.bus.index[net.bus.vn_kv == 20.0]]
     hot = rng.sample(buses, min(len(buses), 2))
     vmb = {}
@@ -71,6 +77,14 @@ def _gen_case(rng):
                         vn_kv=rng.choice([None, 10.0]))
     opts = {"numba": False, "enforce_q_lims": rng.choice([False, True, True, 2]), "voltage_depend_loads": rng.random() < 0.7,
             "calculate_voltage_angles": rng.random() < 0.8}
+    if len(net.trafo3w):
+        # the iron losses of a trafo3w are a shunt at the hv / mv / lv bus or at the auxiliary star bus
+        opts["trafo3w_losses"] = rng.choice(["hv", "mv", "lv", "star"])
+    if rng.random() < 0.2:
+        # an out-of-service bus with everything connected to it (never the bus of the first ext_grid)
+        cand = [b for b in buses if b != int(net.ext_grid.bus.values[0])]
+        if cand:
+            net.bus.at[rng.choice(cand), "in_service"] = False
     # the PYPOWER algorithms (runpf_pypower) have their own q-limit handling
     if rng.random() < 0.25:
         opts["algorithm"] = rng.choice(["fdbx", "fdxb", "gs"])
@@ -113,10 +127,11 @@ def _fresh_ppc(net):
         return None, "UserWarning"
 
 
-def _oracle(ctx, net, opts, case, bypassed=False):
-    """the laws of the property on the result tables"""
+def _oracle(ctx, net, opts, case, bypassed=False, recycled=None):
+    """the laws of the property on the result tables (recycled = the recycle dict when net holds the results of a recycled run)"""
     bad = []
     known = []
+    known_rc = []
     rb = net.res_bus
     vdl = opts["voltage_depend_loads"]
     enforce = bool(opts["enforce_q_lims"])
@@ -169,7 +184,14 @@ def _oracle(ctx, net, opts, case, bypassed=False):
                 # recorded defect: every bus is a reference bus -> solver and q-limit loop are bypassed (guard G04b false)
                 (known if bypassed else bad).append("gen %d: q %r outside [%r, %r] with enforce_q_lims%s" % (
                     i, q, qmin, qmax, "" if "algorithm" not in opts else ", algorithm " + opts["algorithm"]))
-            if not held and not (abs(q - qmax) <= TOLQ or abs(q - qmin) <= TOLQ):
+            # repaired defect C04-recycle-gen-nan-qlim (recycle["gen"] rebuilt the gen rows without the default q limits: a gen without
+            # q limits got QMIN = QMAX = 0 and was "limited" to q = 0); a recurrence is reported as an unclassified violation
+            nan_lim = ("min_q_mvar" not in net.gen or math.isnan(float(net.gen.min_q_mvar.values[pos]))
+                       or "max_q_mvar" not in net.gen or math.isnan(float(net.gen.max_q_mvar.values[pos])))
+            if not held and not (abs(q - qmax) <= TOLQ or abs(q - qmin) <= TOLQ) and recycled is not None and recycled.get("gen") \
+                    and nan_lim and abs(q) <= TOLQ:
+                known_rc.append("gen %d (no q limits): bus vm %r != setpoint %r with q = 0 after a recycled power flow with recycle['gen']=True" % (i, rb.vm_pu.at[b], vset))
+            elif not held and not (abs(q - qmax) <= TOLQ or abs(q - qmin) <= TOLQ):
                 bad.append("gen %d: bus vm %r != setpoint %r but q %r is not at a limit [%r, %r]" % (i, rb.vm_pu.at[b], vset, q, qmin, qmax))
     for tab in ("sgen", "storage"):
         for pos, i in enumerate(net[tab].index):
@@ -213,6 +235,8 @@ def _oracle(ctx, net, opts, case, bypassed=False):
             bad.append("shunt %d: result %r,%r != step*p*(v*vn_bus/vn)^2 %r,%r" % (i, net.res_shunt.p_mw.at[i], net.res_shunt.q_mvar.at[i], ep, eq))
     for w in bad[:3]:
         ctx.violation("spec", w, case)
+    for w in known_rc[:1]:
+        ctx.violation("spec", w, case)
     for w in known[:1]:
         ctx.violation("C04-qlim-bypass", w + " (all buses are reference buses: solver and q-limit loop bypassed)", case)
         ctx.count("known:C04-qlim-bypass")
@@ -224,8 +248,9 @@ def _one(ctx, rng, sterms, spend, qterms, qpend, given=None, sample=False):
     if given is None:
         net, opts, malformed = _gen_case(rng)
     else:
-        net, opts = given
+        net, opts = given[0], given[1]
         malformed = None
+    forced_rc = given[2] if (given is not None and len(given) > 2) else None
     net_js = pp.to_json(net)
     case = {"net": net_js, "opts": opts}
     rec = []
@@ -236,7 +261,21 @@ def _one(ctx, rng, sterms, spend, qterms, qpend, given=None, sample=False):
         rec.append(([] if limited_gens is None else [int(i) for i in limited_gens], [float(v) for v in out[1][:, QG]]))
         return out
 
+    seen, post = [], []
+    orig_pf = R._run_ac_pf_without_qlims_enforced
+
+    def spy_pf(ppci, options):
+        seen.append(([float(v) for v in ppci["bus"][:, PD]], [float(v) for v in ppci["bus"][:, QD]]))
+        return orig_pf(ppci, options)
+
+    def spy(ppci, options, limited_gens=None):
+        out = orig(ppci, options, limited_gens)
+        rec.append(([] if limited_gens is None else [int(i) for i in limited_gens], [float(v) for v in out[1][:, QG]]))
+        post.append(([float(v) for v in out[0][:, PD]], [float(v) for v in out[1][:, PG]]))
+        return out
+
     R.ppci_to_pfsoln = spy
+    R._run_ac_pf_without_qlims_enforced = spy_pf
     err = None
     try:
         pp.runpp(net, **opts)
@@ -250,6 +289,7 @@ def _one(ctx, rng, sterms, spend, qterms, qpend, given=None, sample=False):
         err = "raise:" + type(e).__name__
     finally:
         R.ppci_to_pfsoln = orig
+        R._run_ac_pf_without_qlims_enforced = orig_pf
     ctx.count("outcome_" + (err or "ok"))
     ctx.count("enforce_%s" % opts["enforce_q_lims"])
     ctx.count("algorithm_%s_%s" % (opts.get("algorithm", "nr"), err or "ok"))
@@ -264,6 +304,42 @@ def _one(ctx, rng, sterms, spend, qterms, qpend, given=None, sample=False):
         rec = []
     elif err is None:
         g_final = [float(v) for v in net._ppc["internal"]["gen"][:, QG]]     # before _pd2ppc below rebuilds net._ppc
+        bus_final = ([float(v) for v in net._ppc["internal"]["bus"][:, PD]], [float(v) for v in net._ppc["internal"]["bus"][:, QD]])
+        gb_final = [int(v) for v in net._ppc["internal"]["gen"][:, GEN_BUS]]
+        # recycled power flow on a copy (time-series use): reuses net._ppc["internal"] (bus PD/QD, bus types, gen rows) as the loop left them
+        net2, rc = None, None
+        if opts["enforce_q_lims"]:
+            import copy
+            net2 = copy.deepcopy(net)
+            rc = rng.choice([dict(bus_pq=False, gen=False, trafo=False), dict(bus_pq=True, gen=False, trafo=False),
+                             dict(bus_pq=False, gen=True, trafo=False), dict(bus_pq=True, gen=True, trafo=True)])
+            rc = forced_rc if forced_rc is not None else rc
+            try:
+                pp.runpp(net2, recycle=rc, **opts)
+                ctx.count("recycled_run_ok")
+                if rc.get("gen") and len(net2.gen) and "gen" in net2._pd2ppc_lookups:
+                    lk = net2._pd2ppc_lookups["gen"]
+                    rows_i, rows_t = [], []
+                    for pos, i in enumerate(net2.gen.index):
+                        if not net2._is_elements["gen"][pos] or int(i) >= len(lk) or lk[int(i)] < 0:
+                            continue
+                        r_ = int(lk[int(i)])
+                        rows_i.append([float(net2._ppc["gen"][r_, QMIN]), float(net2._ppc["gen"][r_, QMAX])])
+                        lo = float(net2.gen.min_q_mvar.values[pos]) if "min_q_mvar" in net2.gen else float("nan")
+                        hi = float(net2.gen.max_q_mvar.values[pos]) if "max_q_mvar" in net2.gen else float("nan")
+                        rows_t.append("(%s, %s)" % (cq.oq(None if math.isnan(lo) else lo), cq.oq(None if math.isnan(hi) else hi)))
+                    if rows_t:
+                        DEM["lt"].append("run_row_limits %s %s" % (cq.q(float(net2._options["q_lim_default"])), cq.lst(rows_t)))
+                        DEM["lp"].append((rows_i, dict(case, recycle=rc)))
+                dv = float(np.nanmax(np.abs(net2.res_bus.vm_pu.values - net.res_bus.vm_pu.values))) if len(net.res_bus) else 0.0
+                dq = float(np.nanmax(np.abs(net2.res_gen.q_mvar.values - net.res_gen.q_mvar.values))) if len(net.res_gen) else 0.0
+                ctx.count("recycled_results_equal" if max(dv, dq) < 1e-6 else "recycled_results_differ")
+            except pp.LoadflowNotConverged:
+                ctx.count("recycled_run_not_converged")
+                net2 = None
+            except Exception as e:
+                ctx.violation("spec", "recycled power flow after the q-limit run raised %s: %s" % (type(e).__name__, str(e)[:120]), case)
+                net2 = None
     if err and err.startswith("raise:"):
         ctx.count(err)
         return
@@ -316,7 +392,29 @@ def _one(ctx, rng, sterms, spend, qterms, qpend, given=None, sample=False):
         ctx.count("limited_%d" % min(len(rec[-1][0]), 5))
         if len(rec[-1][0]) > 0:
             nontriv = True
+    # (c) demand history of the loop: PD/QD seen by every PF call, PD/QD after the loop
+    if nr_alg and err is None and g_final is not None and rec and len(seen) == len(rec) == len(post) and opts["enforce_q_lims"]:
+        n = len(rec)
+        pd0, qd0 = seen[0]
+        passes = []
+        for j in range(n - 1):
+            new = rec[j + 1][0][len(rec[j][0]):]
+            passes.append("(mkPass %s %s %s)" % (cq.lst([cq.q(v) for v in post[j][0]]), cq.lst([cq.q(v) for v in post[j][1]]),
+                                                 cq.lst(["(%s, %s)" % (cq.nat(i), cq.q(g_final[i])) for i in new])))
+        DEM["t"].append("run_demand %s %s %s %s %s" % (cq.lst([cq.nat(b) for b in gb_final]), cq.lst([cq.q(v) for v in pd0]),
+                                                       cq.lst([cq.q(v) for v in qd0]), cq.lst(passes), cq.lst([cq.q(v) for v in post[-1][0]])))
+        DEM["p"].append(([seen[j + 1] for j in range(n - 1)], bus_final, case))
+        # frame (independent of the model): the loop leaves the demand columns as it found them (pfsoln writes PD only under distributed slack)
+        if bus_final[1] != qd0:
+            ctx.violation("spec", "q-limit loop: bus QD after the loop differs from QD before it: %r vs %r" % (bus_final[1], qd0), case)
+        if bus_final[0] != pd0:
+            ctx.violation("spec", "q-limit loop: bus PD after the loop differs from PD before it: %r vs %r" % (bus_final[0], pd0), case)
+        ctx.count("demand_history_passes_%d" % min(n - 1, 4))
+    elif nr_alg and err is None and opts["enforce_q_lims"] and g_final is not None:
+        ctx.count("demand_history_not_recorded")
     # oracle
+    if err is None and g_final is not None and net2 is not None:
+        _oracle(ctx, net2, opts, dict(case, recycle=rc), bypassed=False, recycled=rc)        # the laws on the recycled results
     if err is None:
         # the observed bypass must be the one of the model guard G04b: every in-service ppc bus is a reference bus
         if bypassed:
@@ -335,13 +433,14 @@ def _corpus():
     out = []
     for f in sorted(glob.glob(os.path.join(cq.VERIF, "corpus", "C04", "*.json"))):
         rec = json.load(open(f))
-        out.append((pp.from_json_string(rec["net"]), rec["opts"]))
+        out.append((pp.from_json_string(rec["net"]), rec["opts"], rec.get("recycle")))
     return out
 
 
 def run(ctx, only=None):
     rng = ctx.rng
     sterms, spend, qterms, qpend = [], [], [], []
+    DEM["t"], DEM["p"], DEM["lt"], DEM["lp"] = [], [], [], []
     if only is None:
         for given in _corpus():
             _one(ctx, rng, sterms, spend, qterms, qpend, given=given)
@@ -387,8 +486,45 @@ def run(ctx, only=None):
                     bad.append("final QG row %d impl %r model %s" % (r, b, float(a)))
         if bad:
             ctx.disagreement("q-limit loop: " + "; ".join(bad[:4]), case)
+    _compare_demand(ctx)
+    _compare_limits(ctx)
+
+
+def _compare_limits(ctx):
+    lm = ctx.coq_eval("c04l", "Base.QN Base.QC C01.Model C04.Model", DEM["lt"], shard=50, timeout=900) if DEM["lt"] else []
+    for (rows_i, case), m in zip(DEM["lp"], lm):
+        ctx.corr_checked += 1
+        bad = ["gen row %d QMIN/QMAX after recycle['gen'] impl %r model %r" % (j, a, [float(v) for v in b])
+               for j, (a, b) in enumerate(zip(rows_i, m)) if not (pf.close(b[0], a[0], 1e-12) and pf.close(b[1], a[1], 1e-12))]
+        if bad:
+            ctx.disagreement("recycled power flow gen limits: " + "; ".join(bad[:3]), case)
+
+
+def _compare_demand(ctx):
+    dm = ctx.coq_eval("c04d", "Base.QN Base.QC C01.Model C04.Model", DEM["t"], shard=25, timeout=900) if DEM["t"] else []
+    for (seen_i, final_i, case), m in zip(DEM["p"], dm):
+        ctx.corr_checked += 1
+        trace_m, final_m, fresh = m
+        bad = []
+        if not fresh:
+            bad.append("a pass limited a row that was limited before (fresh_passes false)")
+        if len(trace_m) != len(seen_i):
+            bad.append("number of passes impl %d model %d" % (len(seen_i), len(trace_m)))
+        for j, ((pd_i, qd_i), (pd_m, qd_m)) in enumerate(zip(seen_i, trace_m)):
+            for k, (a, b) in enumerate(zip(pd_i, pd_m)):
+                if not pf.close(b, a, 1e-9):
+                    bad.append("PF call %d bus %d PD impl %r model %s" % (j + 1, k, a, float(b)))
+            for k, (a, b) in enumerate(zip(qd_i, qd_m)):
+                if not pf.close(b, a, 1e-9):
+                    bad.append("PF call %d bus %d QD impl %r model %s" % (j + 1, k, a, float(b)))
+        for nm, col_i, col_m in (("PD", final_i[0], final_m[0]), ("QD", final_i[1], final_m[1])):
+            for k, (a, b) in enumerate(zip(col_i, col_m)):
+                if not pf.close(b, a, 1e-12):
+                    bad.append("after the loop bus %d %s impl %r model %s" % (k, nm, a, float(b)))
+        if bad:
+            ctx.disagreement("q-limit loop demand history: " + "; ".join(bad[:4]), case)
 
 
 def replay(ctx, rec):
     case = rec["case"]
-    run(ctx, only=[(pp.from_json_string(case["net"]), case["opts"])])
+    run(ctx, only=[(pp.from_json_string(case["net"]), case["opts"], case.get("recycle"))])
